@@ -4,7 +4,7 @@ CONSTANTS
   DEVIATIONS = {"S19", "S20"}
   MINB = 240
   SLACK = 2500
-  PROC = 1500
+  PROC = 3000
   CAP = 5000
 SPECIFICATION Spec
 CHECK_DEADLOCK FALSE
